@@ -1,3 +1,6 @@
+#[cfg(llg_verif)]
+use crate::verif_hooks::std_shim as std;
+
 // In this file, "Kallmeyer 2018" refers to the
 // slides for "Parsing: Earley parsing", Winter 2017/2018,
 // Laura Kallmeyer, Heinrich Heine Universitaet, Dusseldorf,
